@@ -163,3 +163,49 @@ def maxdiff(A, B):
     if A.shape != B.shape:
         return float("inf")
     return float(np.max(np.abs(A - B)))
+
+
+# ------------------------------------------------------------------ Print Assumptions
+def axioms_printed(out):
+    """Names of all axioms listed in `Print Assumptions` blocks of a coqc output
+    (an axiom name may stand alone on its line with the type on continuation lines)."""
+    names = []
+    in_block = False
+    for line in out.splitlines():
+        if line.startswith("Axioms:"):
+            in_block = True
+            continue
+        if line.startswith("Closed under the global context"):
+            in_block = False
+            continue
+        if in_block:
+            m = re.match(r"^([A-Za-z_][\w.']*)\s*(:|$)", line)
+            if m:
+                if m.group(1) not in names:
+                    names.append(m.group(1))
+            elif not line.startswith(" "):
+                in_block = False
+    return names
+
+
+REAL_AXIOMS_EXPECTED = ["ClassicalDedekindReals.sig_forall_dec", "ClassicalDedekindReals.sig_not_dec",
+                        "FunctionalExtensionality.functional_extensionality_dep"]
+
+
+def complex_props(ctx, name):
+    """Compile coq/props/<name>.v (instantiation at the complex numbers) and record the
+    exact axiom list its theorems depend on."""
+    res = ctx.props(name)
+    if res.ok:
+        ax = axioms_printed(res.out)
+        ctx.coverage["complex_instance_axioms"] = ax
+        for a in ax:
+            if a not in ctx.assumptions_printed.setdefault("axioms", []):
+                ctx.assumptions_printed["axioms"].append(a)
+        ctx.trusted.append(f"props/{name}.v only (instantiation at Coquelicot's complex numbers, Proofs/ComplexInstance.v): "
+                           "axioms of Coq's real numbers as printed by Print Assumptions: " + ", ".join(ax) +
+                           "; every other theorem of this property is closed under the global context")
+        unexpected = [a for a in ax if a not in REAL_AXIOMS_EXPECTED]
+        ctx.gen_obligation(f"{name}: only the standard axioms of the real numbers are used", not unexpected,
+                           "unexpected axioms: " + ", ".join(unexpected))
+    return res
